@@ -11,6 +11,8 @@ LEVEL_TEXT = ('Static lockstep analysis of the parallel point / log-likelihood /
 
 
 def run(ctx):
+    from ..effects import rule_G1
+    rule_G1(ctx)      # no state shared between sampler instances (worker pools, caches)
     from ..persist import rule_P12k
     rule_P12k(ctx)      # ordered members are never rebuilt from the (alphabetical) group names
     from ..pathrules import rule_T2_publish
